@@ -14,6 +14,7 @@ package reftable
 // intercepts os.* directly and VerifSpawn/VerifRun are intrinsics.
 
 import (
+	"syscall"
 	"bytes"
 	"fmt"
 	"io/ioutil"
@@ -365,6 +366,12 @@ func verifOpenFile(name string, flag int, perm os.FileMode) (*verifFile, error) 
 
 func verifOpen(name string) (*verifFile, error) {
 	verifStep(true, "open", name)
+	if verifNative.faultOpen > 0 {
+		verifNative.faultOpen--
+		if verifNative.faultOpen == 0 {
+			return nil, &os.PathError{Op: "open", Path: name, Err: syscall.EMFILE}
+		}
+	}
 	return verifWrap(os.Open(name))
 }
 
